@@ -25,6 +25,10 @@ def decReq (j : Json) : Except String Req := do
           ← asBool (← field j "verify"), ← asPairs asChars asChars (← field j "headers"),
           ← asList asChars (← field j "known")⟩
 
+def decClients (j : Json) : Except String Clients := do
+  return ⟨← asChars (← field j "curlAgent"), ← asPairs asChars asChars (← field j "requestsOwn"),
+          ← asChars (← field j "caseIdHeader")⟩
+
 def encPairs (hs : List (Str × Str)) : Json := .arr (hs.map fun kv => .arr [jstr kv.1, jstr kv.2])
 def encOptStr : Option Str → Json | none => .null | some s => jstr s
 def encWords (ws : List Str) : Json := .arr (ws.map jstr)
@@ -36,6 +40,8 @@ def encResult : CurlResult → Json
   | .readsFile => jobj [("kind", .str "readsFile")]
   | .globbed => jobj [("kind", .str "globbed")]
   | .unsupported => jobj [("kind", .str "unsupported")]
+
+def encTable (t : Table) : Json := .arr (t.map fun e => .arr [jstr e.1, encOptStr e.2])
 
 /-! recorder histories -/
 
@@ -73,6 +79,22 @@ def handle : Handler := fun op a => do
   | "quote" => return .arr ((← asList asChars (← field a "ss")).map fun s => jstr (shlexQuote s))
   | "shparse" => return .arr ((← asList asChars (← field a "ss")).map fun s => encOptWords (shParse s))
   | "curlsem" => return .arr ((← asList (asList asChars) (← field a "argvs")).map fun v => encResult (curlSem v))
+  | "curlwire" =>
+    -- the specification of everything curl sends (its own fields included) for an argument vector
+    let c ← decClients (← field a "clients")
+    return .arr ((← asList (asList asChars) (← field a "argvs")).map fun v =>
+      jobj [("sem", encResult (curlSem v)),
+            ("wire", match curlWire c v with | some w => encPairs w | none => .null)])
+  | "table" =>
+    -- the code model of get_excluded_headers()
+    return encTable (excludedTable (← asPairs asChars asChars (← field a "defaults")) (← asChars (← field a "ua"))
+      (← asChars (← field a "caseIdHeader")))
+  | "tablewithin" =>
+    -- the specification alone, applied to the table the implementation built
+    let c ← decClients (← field a "clients")
+    let tbl ← decTable (← field a "tbl")
+    return jobj [("within", .bool (tableWithin c tbl)), ("outside", encTable (tableOutside c tbl)),
+                 ("static", encTable (staticAuto c))]
   | "headersent" =>
     return .arr ((← asList asChars (← field a "hs")).map fun h =>
       match headerSent h with | none => .null | some kv => .arr [jstr kv.1, jstr kv.2])
@@ -95,16 +117,25 @@ def handle : Handler := fun op a => do
                  ("sem", match parsed with | some v => encResult (curlSem v) | none => .null), ("wf", .bool (wf r))]
   | "judge" =>
     -- the specification alone, applied to a command text produced by the implementation
-    let auto ← decTable (← field a "auto")
+    -- (the table of automatic fields is the specification's own: computed from the measured clients and the original)
+    let c ← decClients (← field a "clients")
     let o ← field a "orig"
     let orig : Original := ⟨← asChars (← field o "method"), ← asChars (← field o "url"),
                             ← asPairs asChars asChars (← field o "headers"), ← asOpt asChars (optField o "body"),
                             ← asBool (← field o "verify")⟩
     let cmd ← asChars (← field a "cmd")
     let parsed := shParse cmd
+    let auto := specAuto c orig
     return jobj [("argv", encOptWords parsed),
                  ("sem", match parsed with | some v => encResult (curlSem v) | none => .null),
-                 ("ok", .bool (reproduces auto orig cmd))]
+                 ("wire", match parsed with
+                          | some v => (match curlWire c v with | some w => encPairs w | none => .null)
+                          | none => .null),
+                 ("auto", encTable auto),
+                 ("unique", .bool (namesUnique orig.headers)),
+                 ("ok_table", .bool (reproduces auto orig cmd)),
+                 ("ok_wire", .bool (reproducesOnWire c orig cmd)),
+                 ("ok", .bool (reproduces auto orig cmd && reproducesOnWire c orig cmd))]
   | "history" =>
     -- the code model: the recorder after the history (the sample of a failed check is the data selected for it)
     let ops ← asList decOp (← field a "ops")
